@@ -187,11 +187,20 @@ pub fn run(args: &Args) -> Report {
         i += 1;
         let mut rng = master.fork(i);
         let hseed = rng.next();
-        let frames = frame_counts(&mut rng, max_trees, matches!(prop, "C05" | "C09" | "C18"));
+        let mut frames = frame_counts(&mut rng, max_trees, matches!(prop, "C05" | "C09" | "C18"));
+        let mut hopts = opts.clone();
+        // every 10th history: many trees (beyond one cache line of tree entries, partial last tree); the
+        // full comparison then runs after every 8th call only
+        if rng.chance(1, 10) && !opts.crash {
+            let t = rng.range(9, if cfg!(feature = "16K") || TREE_HUGE >= 8 { 19 } else { 37 });
+            frames = t * TREE_FRAMES - *rng.pick(&[0usize, 0, 1, HUGE_FRAMES - 1, HUGE_FRAMES, HUGE_FRAMES + 1, TREE_FRAMES - 1, TREE_FRAMES / 2 + 65]);
+            hopts.compare_every = 8;
+            rep.add("random_histories_many_trees", 1);
+        }
         let cfg = cfgs_for(prop, &mut rng);
         let init = if rng.chance(1, 4) { Init::AllocAll } else { Init::FreeAll };
         let sc = Scenario { frames, init, cfg, place: default_place(hseed) };
-        let mut h = match Hist::start(sc.frames, sc.init, &sc.cfg, sc.place, hseed, opts.clone()) {
+        let mut h = match Hist::start(sc.frames, sc.init, &sc.cfg, sc.place, hseed, hopts) {
             Ok(h) => h,
             Err(v) => {
                 rep.start_failure(prop, &sc, &v);
